@@ -22,6 +22,7 @@ Hypotheses that every history theorem carries, and why:
   `save_all` is cut to 30 bits — outside the property's "installation" sizes and outside the run).
 -/
 import Cascette.Proofs.Container
+import Cascette.Proofs.ArchiveChunked
 namespace Cascette.Props.C04
 open Cascette
 open Cascette.Model.Container
@@ -605,6 +606,67 @@ theorem tabulated_steps_are_the_model (P : Archive.Params) (cfg : Lsm.Cfg) :
     cases op <;> simp only [stepT, hm, hd]
   · intro s op
     cases op <;> simp only [istepT, hm, hd]
+
+/-- **chunked_steps_are_the_model.** For the `dyn` / `inst` streams the correspondence driver
+keeps the data file as the list of the pieces it was written in, with its length
+(Model/ArchiveChunked: an append is then O(piece) instead of O(file), which is what lets ONE case
+carry the some 3 700 / 7 400 writes that take an index bucket's sorted section past the 64 KiB /
+128 KiB alignment boundary of its `.idx` file).  `abs` flattens the pieces.  For EVERY state whose
+length field is right and EVERY operation, the driver's step (`stepTC` / `istepTC`), flattened, is
+`Container.step` / `istep` of the flattened state, with the same output, and the length field
+stays right; the initial state qualifies.  Hence for EVERY history the outputs the driver prints
+(`runTC` / `irunTC` from the initial state) are exactly those of `Container.run` / `irun` — the
+driver runs the model the theorems above are about, on another representation of the same file. -/
+theorem chunked_steps_are_the_model (P : Archive.Params) (cfg : Lsm.Cfg) :
+    (∀ (s : Container.CState) op, s.ar.Wf →
+      (stepTC P cfg s op).1.abs = (step P cfg s.abs op).1 ∧
+        (stepTC P cfg s op).2 = (step P cfg s.abs op).2 ∧ (stepTC P cfg s op).1.ar.Wf) ∧
+    (∀ (s : Container.CIState) op, s.ar.Wf →
+      (istepTC P cfg s op).1.abs = (istep P cfg s.abs op).1 ∧
+        (istepTC P cfg s op).2 = (istep P cfg s.abs op).2 ∧ (istepTC P cfg s op).1.ar.Wf) ∧
+    (∀ ops, (runTC P cfg Container.CState.init ops).2 = (run P cfg State.init ops).2) ∧
+    (∀ ops, (irunTC P cfg Container.CIState.init ops).2 = (irun P cfg IState.init ops).2) := by
+  obtain ⟨hm, hd, _, _⟩ := tabulated_steps_are_the_model P cfg
+  have e1 : ∀ (s : Container.CState) op, stepTC P cfg s op = stepC P cfg s op := by
+    intro s op
+    cases op <;> simp only [stepTC, hm, hd]
+  have e2 : ∀ (s : Container.CIState) op, istepTC P cfg s op = istepC P cfg s op := by
+    intro s op
+    cases op <;> simp only [istepTC, hm, hd]
+  have h1 : ∀ (s : Container.CState) op, s.ar.Wf →
+      (stepTC P cfg s op).1.abs = (step P cfg s.abs op).1 ∧
+        (stepTC P cfg s op).2 = (step P cfg s.abs op).2 ∧ (stepTC P cfg s op).1.ar.Wf := by
+    intro s op hs
+    rw [e1]
+    exact Cascette.Proofs.ArchiveChunked.stepC_sim P cfg s hs op
+  have h2 : ∀ (s : Container.CIState) op, s.ar.Wf →
+      (istepTC P cfg s op).1.abs = (istep P cfg s.abs op).1 ∧
+        (istepTC P cfg s op).2 = (istep P cfg s.abs op).2 ∧ (istepTC P cfg s op).1.ar.Wf := by
+    intro s op hs
+    rw [e2]
+    exact Cascette.Proofs.ArchiveChunked.istepC_sim P cfg s hs op
+  have r1 : ∀ ops (s : Container.CState), s.ar.Wf →
+      (runTC P cfg s ops).2 = (run P cfg s.abs ops).2 := by
+    intro ops
+    induction ops with
+    | nil => intro s _; rfl
+    | cons op ops ih =>
+      intro s hs
+      obtain ⟨ha, ho, hw⟩ := h1 s op hs
+      simp only [runTC, run]
+      rw [ih _ hw, ha, ho]
+  have r2 : ∀ ops (s : Container.CIState), s.ar.Wf →
+      (irunTC P cfg s ops).2 = (irun P cfg s.abs ops).2 := by
+    intro ops
+    induction ops with
+    | nil => intro s _; rfl
+    | cons op ops ih =>
+      intro s hs
+      obtain ⟨ha, ho, hw⟩ := h2 s op hs
+      simp only [irunTC, irun]
+      rw [ih _ hw, ha, ho]
+  exact ⟨h1, h2, fun ops => r1 ops _ Cascette.Proofs.ArchiveChunked.init_wf,
+    fun ops => r2 ops _ Cascette.Proofs.ArchiveChunked.init_wf⟩
 
 /-- test (kernel-evaluated), the path the fill cases of the run drive through the real container:
 an update section of ONE page of TWO entries, three keys of bucket 1 (1, 16, 256) added with
